@@ -43,7 +43,12 @@ pub struct V7 {
     /// V7 Header
     pub header: Header,
     /// V7 Sets
-    #[nom(Count = "header.count")]
+    // Checked against the input first: nom's `count` reserves room for the announced
+    // number of records (up to 64 KiB) before it has seen a single one.
+    #[nom(
+        ErrorIf = "usize::from(header.count) * 52 > i.len()",
+        Count = "header.count"
+    )]
     pub flowsets: Vec<FlowSet>,
 }
 
